@@ -91,6 +91,9 @@ def check_stream(cfg, key_prefix='C03', full=True, on_call=None):
         bad = cmp.dict(ret, want['importance_values'], tol)
         if bad:
             return Result(False, key=f'{key_prefix}:return-value', detail=f'call {t + 1}: returned dict: {bad}')
+        bad = accessors_stay_read_only(ex, ret, want, cmp, tol, r.loss.scale, t)
+        if bad:
+            return Result(False, key=f'{key_prefix}:{bad[0]}', detail=f'call {t + 1}: {bad[1]}')
         if upd:
             prev_row = (x, y)
     nt = (d >= 2 and any_inner2 and h.loss.nonlinear() and r.explained >= 2 and len(r.orders) >= 2)
@@ -114,10 +117,36 @@ def check_stream(cfg, key_prefix='C03', full=True, on_call=None):
     return res
 
 
+def accessors_stay_read_only(ex, ret, want, cmp, tol, scale, t):
+    """The estimates are what the property says WHATEVER the caller does in between: calling the read-only accessors in any order and
+    editing dictionaries the explainer handed out must not change what importance_values / variances report."""
+    if not want['importance_values']:
+        return None
+    if t % 2 == 0:
+        try:
+            ex.get_normalized_importance_values('sum')
+            ex.get_normalized_importance_values('delta')
+            ex.get_confidence_bound(0.25)
+        except Exception:
+            pass          # C16 owns these accessors; here only their side effects matter
+    for d_ in (ret, ex.importance_values, ex.variances):
+        if isinstance(d_, dict) and d_:
+            k0 = next(iter(d_))
+            d_[k0] = 123456789
+            d_.pop(k0)
+    bad = cmp.dict(ex.importance_values, want['importance_values'], tol)
+    if bad:
+        return 'accessor-side-effect', f'after the accessors were called / returned dictionaries were edited, importance_values: {bad}'
+    bad = cmp.dict(ex.variances, want['variances'], tol * scale)
+    if bad:
+        return 'accessor-side-effect', f'after the accessors were called / returned dictionaries were edited, variances: {bad}'
+    return None
+
+
 def variant_labels(cfg):
     out = []
     m = cfg['model']
-    for k in ('positional', 'opt', 'rank_order', 'out_scale', 'array_out'):
+    for k in ('positional', 'opt', 'rank_order', 'out_scale', 'array_out', 'memo'):
         if m.get(k):
             out.append('model_' + k)
     if cfg.get('prefill'):
